@@ -397,6 +397,86 @@ func (q builtSeq) roundTrip(pkg string, up bool) (violation string, decodeErr bo
 	return "", false
 }
 
+// held: results stay what they were while the caller keeps them. The sequence is encoded and the bytes are kept
+// (together with a private copy); then shorter and longer neighbours are encoded through the same Commands and
+// Command types - the tail, the head, every single command, the sequence itself again - and after each of those
+// calls the kept bytes must still equal the copy, and must finally still decode to the sequence.
+func (q builtSeq) held(pkg string, up bool) string {
+	ad := adapters[pkg]
+	cidsOf := func(a, b int) []byte {
+		var c []byte
+		for _, s := range q.specs[a:b] {
+			c = append(c, s.CID)
+		}
+		return c
+	}
+	n := len(q.specs)
+	first, err := ad.marshalSeq(cidsOf(0, n), q.pls)
+	if err != nil {
+		return fmt.Sprintf("Commands.MarshalBinary refuses %s %s the second time: %v", pkg, q.names(), err)
+	}
+	keep := append([]byte{}, first...)
+	type later struct {
+		what string
+		b    []byte
+		c    []byte
+	}
+	var held []later
+	check := func(after string) string {
+		if !bytes.Equal(first, keep) {
+			return fmt.Sprintf("%s %s was encoded to %x; after %s the returned slice reads %x (an earlier result changes under a later call)", pkg, q.names(), keep, after, first)
+		}
+		for _, h := range held {
+			if !bytes.Equal(h.b, h.c) {
+				return fmt.Sprintf("%s: %s of %s was encoded to %x; after %s the returned slice reads %x (an earlier result changes under a later call)", pkg, h.what, q.names(), h.c, after, h.b)
+			}
+		}
+		return ""
+	}
+	encSeq := func(what string, a, b int) string {
+		out, err := ad.marshalSeq(cidsOf(a, b), q.pls[a:b])
+		if err != nil {
+			return fmt.Sprintf("Commands.MarshalBinary refuses %s of %s %s: %v", what, pkg, q.names(), err)
+		}
+		held = append(held, later{what, out, append([]byte{}, out...)})
+		return check("encoding " + what)
+	}
+	if n >= 2 {
+		if v := encSeq(fmt.Sprintf("the last command"), n-1, n); v != "" {
+			return v
+		}
+		if v := encSeq(fmt.Sprintf("the first %d commands", n-1), 0, n-1); v != "" {
+			return v
+		}
+	}
+	for i := range q.specs {
+		out, _, err := ad.marshal(q.specs[i].CID, q.pls[i])
+		if err != nil {
+			return fmt.Sprintf("Command.MarshalBinary refuses command %d of %s %s: %v", i, pkg, q.names(), err)
+		}
+		held = append(held, later{fmt.Sprintf("command %d alone", i), out, append([]byte{}, out...)})
+		if v := check(fmt.Sprintf("encoding command %d alone", i)); v != "" {
+			return v
+		}
+	}
+	if v := encSeq("the whole sequence again", 0, n); v != "" {
+		return v
+	}
+	gc, gp, err := ad.unmarshalSeq(up, first)
+	if err != nil || len(gc) != n {
+		return fmt.Sprintf("%s %s: the bytes %x kept from the first encoding decode to %d commands, error %v, after the later encodings", pkg, q.names(), first, len(gc), err)
+	}
+	for i := range q.specs {
+		if gc[i] != q.specs[i].CID {
+			return fmt.Sprintf("%s %s: kept bytes %x: decoded command %d has CID %#02x", pkg, q.names(), first, i, gc[i])
+		}
+		if d := diff(q.pls[i], gp[i]); d != "" {
+			return fmt.Sprintf("%s %s: kept bytes %x: decoded command %d differs: %s", pkg, q.names(), first, i, d)
+		}
+	}
+	return ""
+}
+
 func checkSeq(c seqCase) evid.Outcome {
 	if len(c.Cmds) == 0 || len(c.Cmds) > 8 {
 		return evid.Outcome{Skip: true}
@@ -416,6 +496,9 @@ func checkSeq(c seqCase) evid.Outcome {
 	cls := fmt.Sprintf("%s/%s/%d", c.Pkg, dirName(c.Up), len(c.Cmds))
 	v, decodeErr := q.roundTrip(c.Pkg, c.Up)
 	if v == "" {
+		if hv := q.held(c.Pkg, c.Up); hv != "" {
+			return evid.Fail("%s", hv)
+		}
 		return evid.Outcome{NonTrivial: len(c.Cmds) >= 2, Class: cls}
 	}
 	// Known finding K5: DevVersionReq (firmware management, downlink) compares its size with the length
@@ -599,7 +682,7 @@ func TestProp(t *testing.T) {
 		200000, 4500000, genCmd, checkCmd)
 
 	evid.Rapid(r, t, "sequences",
-		"rapid: package x direction x 1..6 (90% >= 2) commands of that package and direction with in-range field values as in 'commands' (DataFragment only in last position), encoded with Commands.MarshalBinary. Oracle: no panic, no error, total length = sum of the specified sizes, Commands.UnmarshalBinary(direction) gives the same CIDs and field-by-field equal payloads. "+
+		"rapid: package x direction x 1..6 (90% >= 2) commands of that package and direction with in-range field values as in 'commands' (DataFragment only in last position), encoded with Commands.MarshalBinary. Oracle: no panic, no error, total length = sum of the specified sizes, Commands.UnmarshalBinary(direction) gives the same CIDs and field-by-field equal payloads; held results: the encoded bytes are kept while the last command, the first n-1 commands, every command alone (Command.MarshalBinary) and the sequence again are encoded - after each call every kept slice still equals its private copy, and the first one still decodes to the sequence. "+
 			"A decode error is attributed to known finding K5 iff it appears exactly when a command is appended directly behind a DevVersionReq to a prefix that round-trips (the walk restarts at the appended command, so every command and every other adjacency of the sequence is still checked). Non-trivial: >= 2 commands.",
 		150000, 3500000, genSeq, checkSeq)
 
